@@ -11,11 +11,17 @@ theorem ite_xor_bool (p q : Bool) (v : Nat) :
     (if (p ^^ q) = true then v else 0) = (if p = true then v else 0) ^^^ (if q = true then v else 0) := by
   cases p <;> cases q <;> simp
 
+/-- "coefficient times polynomial" is a conditional -/
+theorem coef_mul (p i v : Nat) : coef p i * v = if p.testBit i then v else 0 := by
+  unfold coef
+  rw [Nat.testBit_eq_decide_div_mod_eq, Nat.shiftRight_eq_div_pow]
+  rcases Nat.mod_two_eq_zero_or_one (p / 2 ^ i) with h | h <;> simp [h]
+
 theorem clmul_xor_right (c x y : Nat) (n : Nat) : clmul c (x ^^^ y) n = clmul c x n ^^^ clmul c y n := by
   induction n with
   | zero => simp [clmul]
   | succ i ih =>
-    simp only [clmul, ih, Nat.testBit_xor, ite_xor_bool]
+    simp only [clmul, ih, coef_mul, Nat.testBit_xor, ite_xor_bool]
     ac_rfl
 
 theorem reduce_xor (p q : Nat) (n : Nat) : reduce (p ^^^ q) n = reduce p n ^^^ reduce q n := by
@@ -25,12 +31,8 @@ theorem reduce_xor (p q : Nat) (n : Nat) : reduce (p ^^^ q) n = reduce p n ^^^ r
     simp only [reduce]
     rw [← ih]
     congr 1
-    simp only [Nat.testBit_xor]
-    cases p.testBit (8 + i) <;> cases q.testBit (8 + i) <;> simp
-    · ac_rfl
-    · ac_rfl
-    · rw [show p ^^^ mPoly <<< i ^^^ (q ^^^ mPoly <<< i) = p ^^^ q ^^^ (mPoly <<< i ^^^ mPoly <<< i) by ac_rfl]
-      simp
+    simp only [coef_mul, Nat.testBit_xor, ite_xor_bool]
+    ac_rfl
 
 /-- multiplication by a constant is GF(2)-linear -/
 theorem gfmul_xor_right (c x y : Nat) : gfmul c (x ^^^ y) = gfmul c x ^^^ gfmul c y := by
